@@ -95,7 +95,7 @@ func (p *c04) RunCase(ctx *runner.Ctx) runner.CaseResult {
 		kind string
 	}
 	reqs := []req{}
-	for _, src := range c02Sources {
+	for _, src := range c02Sources() {
 		for fi := 0; fi < 2; fi++ {
 			values := val.Item{}
 			var flt *refmodel.Cond
